@@ -39,6 +39,10 @@ const (
 
 	traceIDExemplarKey = "trace_id"
 	spanIDExemplarKey  = "span_id"
+
+	// maxNativeHistogramSchema is the highest resolution (schema) of a
+	// Prometheus native histogram.
+	maxNativeHistogramSchema = 8
 )
 
 var (
@@ -271,6 +275,14 @@ func addExponentialHistogramMetric[N int64 | float64](
 
 		desc := prometheus.NewDesc(name, m.Description, keys, nil)
 
+		// Prometheus native histograms only support schemas up to 8. A point
+		// with a higher scale is downscaled: every 2^scaleDown adjacent
+		// buckets are merged into one (index >> scaleDown).
+		scaleDown := int32(0)
+		if dp.Scale > maxNativeHistogramSchema {
+			scaleDown = dp.Scale - maxNativeHistogramSchema
+		}
+
 		// From spec: note that Prometheus Native Histograms buckets are indexed by upper boundary while Exponential Histograms are indexed by lower boundary, the result being that the Offset fields are different-by-one.
 		positiveBuckets := make(map[int]int64)
 		for i, c := range dp.PositiveBucket.Counts {
@@ -278,7 +290,7 @@ func addExponentialHistogramMetric[N int64 | float64](
 				otel.Handle(fmt.Errorf("positive count %d is too large to be represented as int64", c))
 				continue
 			}
-			positiveBuckets[int(dp.PositiveBucket.Offset)+i+1] = int64(c) // nolint: gosec  // Size check above.
+			positiveBuckets[((int(dp.PositiveBucket.Offset)+i)>>scaleDown)+1] += int64(c) // nolint: gosec  // Size check above.
 		}
 
 		negativeBuckets := make(map[int]int64)
@@ -287,7 +299,7 @@ func addExponentialHistogramMetric[N int64 | float64](
 				otel.Handle(fmt.Errorf("negative count %d is too large to be represented as int64", c))
 				continue
 			}
-			negativeBuckets[int(dp.NegativeBucket.Offset)+i+1] = int64(c) // nolint: gosec  // Size check above.
+			negativeBuckets[((int(dp.NegativeBucket.Offset)+i)>>scaleDown)+1] += int64(c) // nolint: gosec  // Size check above.
 		}
 
 		m, err := prometheus.NewConstNativeHistogram(
@@ -297,7 +309,7 @@ func addExponentialHistogramMetric[N int64 | float64](
 			positiveBuckets,
 			negativeBuckets,
 			dp.ZeroCount,
-			dp.Scale,
+			dp.Scale-scaleDown,
 			dp.ZeroThreshold,
 			dp.StartTime,
 			values...)
